@@ -165,3 +165,28 @@ def write_wav(path, data, sr, sw, ch, trailer=False):
         # sanity: the standard reader still sees exactly the audio
         got, _ = read_wav(path)
         assert got == data, "trailer broke the wav file"
+    stamp(path)
+
+
+_MTIME = {"n": 0}
+
+
+def stamp(path):
+    """Scratch files reuse one path per process and are rewritten within
+    microseconds; real file systems would give distinct modification times
+    to files written at distinct moments, tmpfs only has tick resolution.
+    Give every written input file a strictly increasing mtime (nanoseconds,
+    same second) so that only caches which ignore sub-second changes - or the
+    path's content altogether - can go stale."""
+    _MTIME["n"] += 1
+    ns = 1_700_000_000 * 10 ** 9 + _MTIME["n"] * 1000
+    try:
+        os.utime(path, ns=(ns, ns))
+    except OSError:
+        pass
+
+
+def write_file(path, data):
+    with open(path, "wb") as f:
+        f.write(data)
+    stamp(path)
